@@ -27,8 +27,10 @@ def _pure(prefix, ty, src, mod):
           f("neg"), "all canonical a", f"{ty}::neg", est=4),
         H(f"c10::{prefix}_double", f"C10.K.{prefix}.double", f"{ty}: double(a) = a+a = 2a mod {mod}",
           f("double", "add"), "all canonical a", f"{ty}::double", est=6),
-        H(f"c10::{prefix}_cancel", f"C10.K.{prefix}.cancel", f"{ty}: (a-b)+b = a, (a+b)-b = a, -(-a) = a, a+(-a) = 0",
-          f("add", "sub", "neg"), "all canonical a,b", f"{ty}::add-sub-neg-identities", est=15),
+        H(f"c10::{prefix}_cancel", f"C10.K.{prefix}.neg_identities", f"{ty}: -(-a) = a, a+(-a) = 0",
+          f("add", "neg"), "all canonical a", f"{ty}::neg-identities", est=10),
+        H(f"c10::{prefix}_cancel2", f"C10.K.{prefix}.add_sub_identities", f"{ty}: (a-b)+b = a, (a+b)-b = a",
+          f("add", "sub"), "all canonical a,b", f"{ty}::add-sub-identities", tiers=("thorough",), est=600, timeout=1800),
     ]
 
 
@@ -38,16 +40,16 @@ SPECS = (
     H("c10::jfr_from_repr_canonical", "C10.K.jfr.from_repr.canonical",
       "Jubjub Fr::from_repr / from_bytes is Some exactly for byte strings below the modulus",
       ["curves/src/jubjub/fr.rs::Fr::from_bytes", "curves/src/jubjub/fr.rs::Fr::from_repr"], "all 2^256 byte strings",
-      "jubjub::Fr::from_repr:canonicity", est=40, timeout={"quick": 240, "thorough": 900}),
+      "jubjub::Fr::from_repr:canonicity", est=40, timeout={"quick": 600, "thorough": 1800}),
     # ---- Curve25519 Fp decoders
     H("c10::cfp_from_repr_canonical", "C10.K.cfp.from_repr.canonical",
       "Curve25519 Fp::from_repr is Some exactly for byte strings below 2^255-19",
       ["curves/src/curve25519/fp.rs::Fp::from_repr", "curves/src/curve25519/fp.rs::Fp::is_less_than_modulus"], "all 2^256 byte strings",
-      "curve25519::Fp::from_repr:canonicity", est=80, timeout={"quick": 240, "thorough": 900}),
+      "curve25519::Fp::from_repr:canonicity", est=80, timeout={"quick": 600, "thorough": 1800}),
     H("c10::cfp_from_bytes_canonical", "C10.K.cfp.from_bytes.canonical",
       "Curve25519 Fp::from_bytes (inherent) is Some exactly for byte strings below 2^255-19",
       ["curves/src/curve25519/fp.rs::Fp::from_bytes", "curves/src/curve25519/fp.rs::Fp::is_less_than_modulus"], "all 2^256 byte strings",
-      "curve25519::Fp::from_bytes:canonicity", est=80, timeout={"quick": 240, "thorough": 900}),
+      "curve25519::Fp::from_bytes:canonicity", est=80, timeout={"quick": 600, "thorough": 1800}),
     H("c10::cfp_from_raw_bytes_canonical", "C10.K.cfp.from_raw_bytes.canonical",
       "Curve25519 Fp SerdeObject::from_raw_bytes is Some exactly for Montgomery limbs below p and returns those limbs; unchecked returns the limbs",
       ["curves/src/curve25519/fp.rs::Fp::from_raw_bytes", "curves/src/curve25519/fp.rs::Fp::from_raw_bytes_unchecked"],
@@ -77,12 +79,12 @@ SPECS = (
       ["curves/src/bls12_381/fq.rs::Fq::to_bytes_le", "curves/src/bls12_381/fq.rs::Fq::to_bytes_be", "curves/src/bls12_381/fq.rs::Fq::to_repr"],
       "all limb values, all oracle answers", "bls12_381::Fq::to_bytes:contract", est=5),
     H("c10::bfq_ord_contract", "C10.K.bfq.ord", "BLS Fq Ord = integer order of the two to_bytes_be answers",
-      ["curves/src/bls12_381/fq.rs::Fq::cmp"], "all limb values, all oracle answers", "bls12_381::Fq::cmp", est=8),
+      ["curves/src/bls12_381/fq.rs::Fq::cmp"], "all limb values, all oracle answers", "bls12_381::Fq::cmp", est=8, timeout={"quick": 600, "thorough": 1800}),
     H("c10::bfq_eq_select", "C10.K.bfq.eq_select", "BLS Fq ct_eq/==/is_zero/conditional_select act limb-wise",
       ["curves/src/bls12_381/fq.rs::Fq::ct_eq", "curves/src/bls12_381/fq.rs::Fq::conditional_select", "curves/src/bls12_381/fq.rs::Fq::is_zero"],
       "all limb pairs", "bls12_381::Fq::eq-select", est=4),
     H("c10::bfq_from_uniform_bytes_contract", "C10.K.bfq.from_uniform_bytes", "BLS Fq::from_uniform_bytes = add(mul(lo,2^512 mod q), mul(hi,2^768 mod q)) with blst mul/add uninterpreted",
-      ["curves/src/bls12_381/fq.rs::Fq::from_uniform_bytes"], "all 64-byte inputs", "bls12_381::Fq::from_uniform_bytes:contract", est=10),
+      ["curves/src/bls12_381/fq.rs::Fq::from_uniform_bytes"], "all 64-byte inputs", "bls12_381::Fq::from_uniform_bytes:contract", est=10, timeout={"quick": 600, "thorough": 1800}),
     H("c10::bfq_from_raw_bytes_rejects_noncanonical", "C10.K.bfq.from_raw_bytes.canonical",
       "BLS Fq SerdeObject::from_raw_bytes (the checked decoder) rejects Montgomery limbs >= q",
       ["curves/src/bls12_381/fq.rs::Fq::from_raw_bytes"], "all 2^256 byte strings", "bls12_381::Fq::from_raw_bytes:accepts-noncanonical", est=5),
@@ -96,9 +98,9 @@ SPECS = (
     H("c10::bfp_from_bytes_le_canonical", "C10.K.bfp.from_bytes_le.canonical",
       "BLS Fp::from_bytes_le / from_repr (canonicity test in Rust) is Some exactly for byte strings below p; value = blst_fp_from_lendian of these bytes",
       ["curves/src/bls12_381/fp.rs::Fp::from_bytes_le", "curves/src/bls12_381/fp.rs::is_valid", "curves/src/bls12_381/fp.rs::Fp::from_repr"],
-      "all 2^384 byte strings", "bls12_381::Fp::from_bytes_le:canonicity", est=15),
+      "all 2^384 byte strings", "bls12_381::Fp::from_bytes_le:canonicity", est=15, timeout={"quick": 600, "thorough": 1800}),
     H("c10::bfp_from_bytes_be_canonical", "C10.K.bfp.from_bytes_be.canonical", "BLS Fp::from_bytes_be is Some exactly for big-endian integers below p",
-      ["curves/src/bls12_381/fp.rs::Fp::from_bytes_be"], "all 2^384 byte strings", "bls12_381::Fp::from_bytes_be:canonicity", est=15),
+      ["curves/src/bls12_381/fp.rs::Fp::from_bytes_be"], "all 2^384 byte strings", "bls12_381::Fp::from_bytes_be:canonicity", est=15, timeout={"quick": 600, "thorough": 1800}),
     H("c10::bfp_from_u64s_le_canonical", "C10.K.bfp.from_u64s_le.canonical", "BLS Fp::from_u64s_le (Rust is_valid_u64) is Some exactly for limbs below p",
       ["curves/src/bls12_381/fp.rs::Fp::from_u64s_le", "curves/src/bls12_381/fp.rs::is_valid_u64"], "all 2^384 limb values",
       "bls12_381::Fp::from_u64s_le:canonicity", est=5),
@@ -106,7 +108,7 @@ SPECS = (
       ["curves/src/bls12_381/fp.rs::Fp::to_bytes_le", "curves/src/bls12_381/fp.rs::Fp::to_bytes_be", "curves/src/bls12_381/fp.rs::Fp::to_repr"],
       "all limb values, all oracle answers", "bls12_381::Fp::to_bytes:contract", est=8),
     H("c10::bfp_ord_contract", "C10.K.bfp.ord", "BLS Fp Ord = integer order of the two to_bytes_be answers",
-      ["curves/src/bls12_381/fp.rs::Fp::cmp"], "all limb values, all oracle answers", "bls12_381::Fp::cmp", est=10),
+      ["curves/src/bls12_381/fp.rs::Fp::cmp"], "all limb values, all oracle answers", "bls12_381::Fp::cmp", est=10, timeout={"quick": 600, "thorough": 1800}),
     H("c10::bfp_eq_select", "C10.K.bfp.eq_select", "BLS Fp ct_eq/==/is_zero/conditional_select act limb-wise",
       ["curves/src/bls12_381/fp.rs::Fp::ct_eq", "curves/src/bls12_381/fp.rs::Fp::conditional_select", "curves/src/bls12_381/fp.rs::Fp::is_zero"],
       "all limb pairs", "bls12_381::Fp::eq-select", est=4),
@@ -120,7 +122,7 @@ SPECS = (
       "slice lengths 0..=56, all contents", "bls12_381::Fp::raw-plumbing", est=20),
     H("c10::bfp2_from_repr_total", "C10.K.bfp2.from_repr.total",
       "BLS Fp2::from_repr is total: Some exactly when both halves are below p, never a panic",
-      ["curves/src/bls12_381/g2.rs::<Fp2 as PrimeField>::from_repr"], "all 2^768 byte strings", "bls12_381::Fp2::from_repr:panics-on-noncanonical", est=15),
+      ["curves/src/bls12_381/g2.rs::<Fp2 as PrimeField>::from_repr"], "all 2^768 byte strings", "bls12_381::Fp2::from_repr:panics-on-noncanonical", est=15, timeout={"quick": 600, "thorough": 1800}),
 ])
 
 
